@@ -208,4 +208,11 @@ def run(chk, repo, tier):
     chk.ob('R07.2', not stores, GD, cls, key='no-late-stores', qualname=est,
            what='no estimator method other than the constructor stores on '
                 'the estimate', found=str(stores))
+    # the molecule whose elements are subtracted is the one the estimate was
+    # made for: where the library records it
+    from .. import reviewed as _rv
+    _rv.check(chk, 'R07.4', repo, 'pgradd/GroupAdd/Library.py',
+              'GroupLibrary.GetDescriptors',
+              'GroupLibrary.GetDescriptors records the molecule it decomposes '
+              '(on every call) as reviewed')
 
